@@ -211,6 +211,92 @@ theorem nodeMissing_nil_quant (hQT : quantTicksB L = true) (I : BranchInv L s bi
       · rw [constDoneB_eq hi hrf] at h1
         simp [h1]
 
+/-- identity substitution is exhausted on a branch where the identity rule has no target -/
+theorem identMissing_nil (I : BranchInv L s bi b h)
+    (hb : s.tab[bi]? = some b) (hh : s.hs[bi]? = some h) (ho : b.closed = false)
+    (hnone : ∀ r : RuleId, targets L s r bi = []) : L.identMissing b = [] := by
+  unfold LogicData.identMissing
+  split
+  · rfl
+  next hc =>
+  have hcl : L.closesSelfIdNeg = true := by simpa using hc
+  have hT := hnone .ident
+  rw [targets_open hb hh ho] at hT
+  simp only at hT
+  rw [List.flatMap_eq_nil_iff]
+  intro ni hni
+  split
+  rotate_left
+  · rfl
+  next q x y w =>
+  split
+  · rfl
+  next hq =>
+  rw [List.filterMap_eq_nil_iff]
+  intro np hnp
+  split
+  · rfl
+  next hne =>
+  split
+  rotate_left
+  · rfl
+  next nd hnd =>
+  split
+  · rfl
+  next hcond =>
+  exfalso
+  obtain ⟨i, hi⟩ := mem_idx hni
+  obtain ⟨j, hj⟩ := mem_idx hnp
+  have hq' : q = Pred.identity := by simpa using hq
+  -- i is live for the identity rule
+  have hnt : i ∉ b.ticked := by
+    intro ht
+    obtain ⟨sn, d, w', hn', r, whole, l0, hrf, _⟩ := I.ticked i ht
+    rw [hi] at hn'
+    simp only [Option.some.injEq, Node.sent.injEq] at hn'
+    obtain ⟨rfl, _, _⟩ := hn'
+    simp [LogicData.ruleFor, Sent.decomp] at hrf
+  have hlive : i ∈ s.live .ident bi := by
+    rcases I.cacheComplete .ident i _ hi (by simp [matchesRule, isIdentityNode, hq']) (fun _ => hnt) with h1 | h1
+    · exact h1
+    · simp [releasable] at h1
+  -- j is a predication node
+  have hjp : j ∈ predIdx b := by
+    simp only [predIdx, List.mem_map, List.mem_filter]
+    refine ⟨(np, j), ⟨by rw [List.mem_zipIdx_iff_getElem?]; exact hj, ?_⟩, rfl⟩
+    unfold identAdd at hnd
+    split at hnd
+    · rfl
+    · cases hnd
+  have hji : (j == i) = false := by
+    rcases Bool.eq_false_or_eq_true (j == i) with h1 | h1
+    · exfalso
+      have : j = i := by simpa using h1
+      subst this
+      rw [hi] at hj
+      simp only [Option.some.injEq] at hj
+      exact hne (by simp [hj])
+    · exact h1
+  have hmem : Step.ident bi i j ∈ identTargets L bi b (s.live .ident bi) := by
+    unfold identTargets
+    simp only [hcl, Bool.not_true, Bool.false_eq_true, ↓reduceIte]
+    refine List.mem_flatMap.2 ⟨i, hlive, List.mem_flatMap.2 ⟨j, hjp, ?_⟩⟩
+    simp only [hji, Bool.false_eq_true, ↓reduceIte, hi, hj, hnd]
+    simp only [Bool.or_eq_true, not_or, Bool.not_eq_true] at hcond
+    simp [hcond.1, hcond.2]
+  rw [hT] at hmem
+  cases hmem
+
+theorem identMissing_of_no_targets (hinv : Inv L s) (hb : s.tab[bi]? = some b) (ho : b.closed = false)
+    (hnone : ∀ r : RuleId, targets L s r bi = []) : L.identMissing b = [] := by
+  have hlen := hinv.len
+  have hbi : bi < s.tab.length := by
+    rcases Nat.lt_or_ge bi s.tab.length with h1 | h1
+    · exact h1
+    · rw [List.getElem?_eq_none h1] at hb; cases hb
+  obtain ⟨h, hh⟩ : ∃ h, s.hs[bi]? = some h := ⟨s.hs[bi]'(by omega), by simp [hlen, hbi]⟩
+  exact identMissing_nil (hinv.branch bi b h hb hh ho) hb hh ho hnone
+
 /-- `SatMod` for branches with quantifier nodes: from `Inv` and `InvQ` -/
 theorem satMod_fo (hEW : EachWorldNoTick L) (hQT : quantTicksB L = true) (hmodal : L.modal = true ∨ L.frameRules = [])
     (hinv : Inv L s) (hinvq : InvQ L s) (htq : TickedQ L b) (hb : s.tab[bi]? = some b) (ho : b.closed = false)
